@@ -767,6 +767,14 @@ func (g *c03vGen) buildMem(op c03vOp, full bool) {
 				}
 			}
 			f["saddr"] = 0x7f
+			if seg == 0 && rng.Chance(30) {
+				// FLAT segment: SADDR is unused, whatever it names (gfx803-encoded code leaves it 0)
+				s := 2 * rng.Intn(50)
+				g.setS(s, 0x100000)
+				g.setS(s+1, 0)
+				f["saddr"] = uint32(s)
+				c.feat["flatsaddr"] = true
+			}
 			if seg == 2 && rng.Chance(45) {
 				useS = true
 				s := 2 * rng.Intn(50)
